@@ -2,6 +2,8 @@ import J5V.Compile.NoPanicPkg
 import J5V.Compile.AstValueProofs
 import J5V.Compile.UsesAll
 import J5V.Compile.ValidPkg
+import J5V.Compile.LinkImports
+import J5V.Compile.LinkAssemble
 import J5V.Generated.SetextFacts
 import J5V.Generated.ImportsFacts
 /-!
@@ -208,6 +210,194 @@ theorem C07_uses_imported_pkg (b : Bundle) (name : Str) (p : Pkg) (l : Loaded) (
     simp only [convOf, hconv] at hfs
     exact convertFile_uses_imported l.resolver path imports elems fs hconv
       (hplain path imports elems decl hsrc) f hfs
+
+/-! ## the link half, bridge by bridge (`C07_link_*`)
+
+`linkFiles` (`Compile/Link.lean`, the spec-level linker) fails in five ways: an import cycle, a
+duplicate symbol, and per file an import that is not found, a used extension file that is not
+imported, a type name that does not resolve. The bridges from the SOURCES to "this arm is not
+taken" are proved one at a time. -/
+
+/-- **Bridge: where imports come from.** Every dependency of every file `ConvertJ5File` returns —
+main file and `.service` / `.topic` sub-package files, for every declaration kind, field kind,
+rule list, nesting depth, services, topics, entities — is one of the eleven import constants of
+`j5convert/imports.go` or the file of a type that a reference OCCURRING IN THE SOURCE FILE
+(`fileRefs`: what `SourceSummary` collects — fields at any depth, request / response / topic
+messages, entity parts) resolves to in the file's own context (`resolveTypeNoImport`: implicit
+import, own package export, export of a direct dependency).
+Nothing else is ever handed to `ensureImport`. No hypothesis beyond "the conversion succeeded". -/
+theorem C07_link_deps_from (res : Resolver) (path : Str) (imports : List Import) (elems : List Elem)
+    (fs : List FileSkel) (h : convertFile res path imports elems = .ok fs) :
+    ∃ im, j5Imports (packageFromFilename (path ++ b!".proto")) imports = .ok im ∧
+      ∀ f ∈ fs, ∀ d ∈ f.deps, d ∈ constImports ∨
+        ∃ pkg schema t, (pkg, schema) ∈ fileRefs (packageFromFilename (path ++ b!".proto")) elems ∧
+          resolveTypeNoImport im res pkg schema = some t ∧ t.file = d :=
+  convertFile_deps_from res path imports elems fs h
+
+/-- **Bridge: imports found.** For every local package that loads (any bundle, any dependency
+graph, any fuel / chain), every dependency of every generated file names a file of the universe
+`CompilePackage` links against: the package's own generated files, the generated files and
+hand-written protos of the loaded dependency packages, or a built-in file — so the import lookup
+of `linkFile` (`f.deps.mapM (univ.find? ·)`) succeeds for every file handed to the linker. -/
+theorem C07_link_imports_found (b : Bundle) (fuel : Nat) (chain : List Str) (name : Str) (p : Pkg)
+    (l : Loaded) (hf : b.find name = some p) (hl : loadPkg b (fuel + 1) chain name = .ok l) :
+    ∀ f ∈ sortFiles l.files,
+      (∀ d ∈ f.deps, ∃ g ∈ (sortFiles l.files).map (·.lfile) ++
+          (l.depFiles.map (·.lfile) ++ l.protos.map protoLFile) ++ builtinFiles, g.name = d) ∧
+      (f.deps.mapM fun d =>
+        ((sortFiles l.files).map (·.lfile) ++ (l.depFiles.map (·.lfile) ++ l.protos.map protoLFile)
+          ++ builtinFiles).find? (·.name = d)).isSome = true := by
+  intro f hfm
+  exact ⟨loadPkg_imports_found b fuel chain name p l hf hl f
+      ((sortFiles_perm_self l.files).mem_iff.mp hfm),
+    loadPkg_imports_lookup b fuel chain name p l hf hl f hfm⟩
+
+/-- **Bridge: uses ⊆ deps**, in `linkFile`'s own terms: the extension-import check
+(`markExtensionImportsUsed`) passes for every file handed to the linker. -/
+theorem C07_link_uses (b : Bundle) (name : Str) (p : Pkg) (l : Loaded) (fuel : Nat)
+    (chain : List Str) (hf : b.find name = some p) (hl : loadPkg b (fuel + 1) chain name = .ok l)
+    (hplain : ∀ path imports elems decl, SrcFile.j5s path imports elems decl ∈ p.files →
+      ∀ s, Elem.service s ∈ elems → s.sopt = .none) :
+    ∀ f ∈ sortFiles l.files, (f.uses.all fun u => u = f.name || f.deps.contains u) = true := by
+  intro f hfm
+  have hfm' : f ∈ l.files := (sortFiles_perm_self l.files).mem_iff.mp hfm
+  have h := C07_uses_imported_pkg b name p l fuel chain hf hl hplain f hfm'
+  simp only [List.all_eq_true, Bool.or_eq_true, decide_eq_true_eq, List.contains_iff_mem]
+  exact h
+
+/-- **Bridge: no import cycle.** For every package of a valid bundle that has a file rank
+(`fileRankOk b rk`, a `Bool` computed from the SOURCES: import constants have rank 0; every main
+file `<path>.proto` has a positive rank below its `service` / `topic` sub-package files; every
+reference occurring in a j5s file resolves — through the file's import map and the export tables
+computed from the sources — into the file's own main file or into a file of smaller rank), no file
+handed to the linker reaches itself through imports, whatever the search depth: the cycle check of
+`linkFiles` (`CircularDependencyError` of `searchLinker`) passes. The files of the transitive
+dependency packages are covered too (each is a generated file of the bundle, `load_genBy`).
+Package-level acyclicity alone (`rankOk` in `ValidBundle`) does not give this: two files of one
+package that use each other's types import each other. -/
+theorem C07_link_acyclic (b : Bundle) (r : Str → Nat) (hv : ValidBundle b r) (rk : Str → Nat)
+    (hrk : fileRankOk b rk = true) (p : Pkg) (hp : p ∈ b.pkgs) :
+    ∃ l, loadPkg b (b.pkgs.length + 1) [] p.name = .ok l ∧
+      ∀ n, (sortFiles l.files).any (fun f => reachesSelf (linkUniv l) f.name n f.name) = false :=
+  link_acyclic b r hv rk hrk p hp
+
+/-- **Acceptance including the link step — three of the five link arms from the sources**
+(`C07_accepts`, link half, PARTIAL). For every package of a bundle that is valid (`ValidBundle`),
+has a file rank (`fileRankOk`) and whose hand-written `service` declarations carry no entity
+annotation (the parser never produces one): `CompilePackage` up to the link step succeeds with the
+sorted generated files `out`, and the spec-level linker `linkFiles` accepts them — i.e.
+`compileLinked = ok` — PROVIDED the two remaining arms are not taken on `out`:
+`NoDupSyms` (no fully-qualified symbol twice over the linked set) and `NamesResolve` (every type
+name of every field and rpc resolves by protobuf scoping). Proved from the sources: no import
+cycle (`C07_link_acyclic`), every import found in the universe (`C07_link_imports_found`), every
+used extension file imported (`C07_link_uses`). MISSING for the full partial statement
+`ValidBundle' b → ∃ out, compilePkg = ok out ∧ link out = ok`: the source-level bridges to
+`NoDupSyms` (per-scope uniqueness of declared, inline, map-entry, field, synthetic-oneof and enum
+value names, also against the dependency files) and to `NamesResolve` (relative names: no ancestor
+has a child named like the first segment — the recorded capture class fails exactly this arm, see
+the example below; absolute names: no earlier visible file shadows the symbol). -/
+theorem C07_accepts_links_partial (b : Bundle) (r : Str → Nat) (hv : ValidBundle b r)
+    (rk : Str → Nat) (hrk : fileRankOk b rk = true) (p : Pkg) (hp : p ∈ b.pkgs)
+    (hplain : ∀ path imports elems decl, SrcFile.j5s path imports elems decl ∈ p.files →
+      ∀ s, Elem.service s ∈ elems → s.sopt = .none) :
+    ∃ l out, loadPkg b (b.pkgs.length + 1) [] p.name = .ok l ∧ compilePkg b p.name = .ok out ∧
+      out = sortFiles l.files ∧
+      (NoDupSyms (linkUniv l) out → (∀ f ∈ out, NamesResolve (linkUniv l) f) →
+        ∃ linked, compileLinked b p.name = .ok linked) := by
+  obtain ⟨l, hl, hc, h⟩ := compileLinked_ok_of_bridges b r hv rk hrk p hp hplain
+  exact ⟨l, _, hl, hc, rfl, h⟩
+
+/-- **…and the two remaining arms are exactly what is left**: under the same source-level
+hypotheses the package links IF AND ONLY IF no symbol is declared twice over the linked set and
+every type name resolves — no other way for `CompilePackage` to fail remains for a valid bundle with
+a file rank. (So a full `links` theorem needs precisely the two missing bridges, nothing else.) -/
+theorem C07_links_iff (b : Bundle) (r : Str → Nat) (hv : ValidBundle b r)
+    (rk : Str → Nat) (hrk : fileRankOk b rk = true) (p : Pkg) (hp : p ∈ b.pkgs)
+    (hplain : ∀ path imports elems decl, SrcFile.j5s path imports elems decl ∈ p.files →
+      ∀ s, Elem.service s ∈ elems → s.sopt = .none) :
+    ∃ l, loadPkg b (b.pkgs.length + 1) [] p.name = .ok l ∧
+      ((∃ out, compileLinked b p.name = .ok out) ↔
+        (NoDupSyms (linkUniv l) (sortFiles l.files) ∧
+          ∀ f ∈ sortFiles l.files, NamesResolve (linkUniv l) f)) :=
+  compileLinked_ok_iff b r hv rk hrk p hp hplain
+
+/-- non-vacuity of the link bridges: a two-file package `bar.v1` (`c.j5s` refers to the enum `E` of
+`b.j5s` — cross-file — and to `foo.v1`'s `A` through an import — cross-package — and holds a map
+field with rules) next to `foo.v1` -/
+def linkPkgs : List Pkg :=
+  [ { name := b!"foo.v1", files :=
+      [ .j5s b!"foo/v1/a.j5s" [] [.object (.mk b!"A" [.mk b!"x" false false (.string [] false)] [] none)]
+          b!"foo.v1" ] },
+    { name := b!"bar.v1", files :=
+      [ .j5s b!"bar/v1/b.j5s" [] [.enum { name := b!"E", pfx := [], opts := [b!"ONE"] }] b!"bar.v1",
+        .j5s b!"bar/v1/c.j5s" [⟨b!"foo.v1", []⟩]
+          [ .object (.mk b!"C" [ .mk b!"a" false false (.objectRef b!"foo" b!"A" false []),
+                                 .mk b!"e" false false (.enumRef [] b!"E" [] (some [b!"ONE"])),
+                                 .mk b!"m" true false (.map (.integer .int64 [⟨b!"minimum", .int 1⟩] false) []),
+                                 .mk b!"in" false false
+                                   (.objectInl [] [.mk b!"y" false false (.string [] false)] false []) ]
+              [] none) ]
+          b!"bar.v1" ] } ]
+
+def linkBundle : Bundle := { pkgs := linkPkgs }
+
+/-- a file rank for `linkBundle`: `a` and `b` below `c`, sub-package files above their main file -/
+def linkFileRank (n : Str) : Nat :=
+  if n = b!"bar/v1/c.j5s.proto" then 3
+  else if n = b!"bar/v1/service/c.p.j5s.proto" ∨ n = b!"bar/v1/topic/c.p.j5s.proto" then 4
+  else if n = b!"foo/v1/a.j5s.proto" ∨ n = b!"bar/v1/b.j5s.proto" then 1
+  else if n = b!"foo/v1/service/a.p.j5s.proto" ∨ n = b!"foo/v1/topic/a.p.j5s.proto" ∨
+      n = b!"bar/v1/service/b.p.j5s.proto" ∨ n = b!"bar/v1/topic/b.p.j5s.proto" then 2
+  else 0
+
+theorem linkBundle_valid : ValidBundle linkBundle validRank := by
+  refine ⟨by decide, fun n => by unfold validRank; split <;> decide, by unfold WfBundle; decide, ?_⟩
+  intro p hp
+  simp only [linkBundle, linkPkgs, List.mem_cons, List.mem_nil_iff, or_false] at hp
+  rcases hp with rfl | rfl
+  · exact ⟨rfl, by decide⟩
+  · exact ⟨rfl, by decide⟩
+
+example : fileRankOk linkBundle linkFileRank = true := by decide +kernel
+
+def linkLoaded : Loaded := match loadPkg linkBundle 3 [] b!"bar.v1" with | .ok l => l | _ => default
+
+/-- the two remaining arms hold on the generated files of `bar.v1` (so `C07_accepts_links_partial`
+yields `compileLinked = ok` there), the files do carry a cross-file and a cross-package import, a
+constant import, and the link result is `ok` -/
+example : NoDupSyms (linkUniv linkLoaded) (sortFiles linkLoaded.files) ∧
+    (sortFiles linkLoaded.files).all (namesResolve (linkUniv linkLoaded)) = true ∧
+    (sortFiles linkLoaded.files).map (·.deps) =
+      [[], [b!"bar/v1/b.j5s.proto", b!"buf/validate/validate.proto", b!"foo/v1/a.j5s.proto",
+            b!"j5/ext/v1/annotations.proto", b!"j5/list/v1/annotations.proto"]] ∧
+    (compileLinked linkBundle b!"bar.v1").isOk = true := by
+  unfold NoDupSyms
+  refine ⟨?_, ?_, ?_, ?_⟩ <;> decide +kernel
+
+/-- a two-file cycle inside one package (`a.j5s` uses `B`, `b.j5s` uses `A`) is a valid bundle that
+does NOT link: no file rank exists for it — the `fileRankOk` hypothesis is not redundant -/
+def cyclePkg : Pkg :=
+  { name := b!"foo.v1", files :=
+      [ .j5s b!"foo/v1/a.j5s" []
+          [.object (.mk b!"A" [.mk b!"b" false false (.objectRef [] b!"B" false [])] [] none)] b!"foo.v1",
+        .j5s b!"foo/v1/b.j5s" []
+          [.object (.mk b!"B" [.mk b!"a" false false (.objectRef [] b!"A" false [])] [] none)] b!"foo.v1" ] }
+
+example : okPkg { pkgs := [cyclePkg] } cyclePkg = true ∧
+    (compilePkg { pkgs := [cyclePkg] } b!"foo.v1").isOk = true ∧
+    (compileLinked { pkgs := [cyclePkg] } b!"foo.v1").isOk = false := by
+  refine ⟨?_, ?_, ?_⟩ <;> decide +kernel
+
+/-- the recorded capture class fails exactly the `NamesResolve` arm: every other arm passes on the
+capture witness (a rank exists, imports are found, no duplicate symbol) -/
+def captureLoaded : Loaded := match loadPkg captureBundle 2 [] b!"foo.v1" with | .ok l => l | _ => default
+
+example : fileRankOk captureBundle (fun n => if n = b!"foo/v1/a.j5s.proto" then 1
+      else if n = b!"foo/v1/service/a.p.j5s.proto" ∨ n = b!"foo/v1/topic/a.p.j5s.proto" then 2 else 0) = true ∧
+    NoDupSyms (linkUniv captureLoaded) (sortFiles captureLoaded.files) ∧
+    (sortFiles captureLoaded.files).all (namesResolve (linkUniv captureLoaded)) = false := by
+  unfold NoDupSyms
+  refine ⟨?_, ?_, ?_⟩ <;> decide +kernel
 
 def emptyCtx : Ctx := { resolve := fun _ _ => none }
 
